@@ -220,6 +220,13 @@ def run(tier, seed):
                 ajobs.append(Job('c19_api.cpp', c, 'clang++', 20, 'plain', p, cflags_override=['-O1']))
         for p in range(1, 7):
             ajobs.append(Job('c19_api.cpp', c, comp, std, 'plain', p, cflags_override=['-O1']))
+        # unoptimised (debug) builds: every odr-use is materialised, e.g. binding the in-class `static constexpr width` to a
+        # reference parameter needs an out-of-class definition before C++17 and only fails to link at -O0
+        if tier == 'thorough' or configs.name(c) in ('none', 'SSE2', 'AVX2', 'F+BW+VL', 'ALL'):
+            o0 = [('g++', 11)] + ([('clang++', 14)] if (tier == 'thorough' or configs.name(c) in ('AVX2', 'F+BW+VL')) else [])
+            for comp0, std0 in o0:
+                for p in range(1, 7):
+                    ajobs.append(Job('c19_api.cpp', c, comp0, std0, 'o0', p, cflags_override=['-O0']))
     t0 = time.time()
     build.build_all(ajobs)
     # link failures: record undefined references, then relink ignoring unresolved symbols so the report is still produced
@@ -242,7 +249,7 @@ def run(tier, seed):
                      'in': 'symbol=%s' % sym.replace(',', ';'), 'got': 'declared but not defined (link error)', 'exp': 'defined and linkable'}
                 r.update(j.info())
                 res.records.append(r)
-            j2 = Job(j.src, j.cfg, j.compiler, j.std, j.variant, j.part, cflags_override=['-O1'], libs=['-no-pie', '-Wl,--unresolved-symbols=ignore-all'])
+            j2 = Job(j.src, j.cfg, j.compiler, j.std, j.variant, j.part, cflags_override=j.cflags_override, libs=['-no-pie', '-Wl,--unresolved-symbols=ignore-all'])
             relink.append(j2)
         else:
             errs = [l for l in j.build_log.splitlines() if 'error' in l]
